@@ -255,7 +255,7 @@ fn build_items(lang: &str, mode: Mode, raw: Vec<RawItem>, out: &mut Vec<Item>) {
                 out.push(Item { text: p, class: Class::Punct, join: own_join });
             }
         }
-        if mode == Mode::Dirty && kind < 90 && extra[9] >= 250 {
+        if mode == Mode::Dirty && kind < 90 && extra[9] >= 238 {
             // truncate the last word (a broken number word)
             if let Some(last) = out.last_mut() {
                 let k = last.text.chars().count();
